@@ -95,7 +95,7 @@ def main():
             "engine": "pkgsim",
             "level_claimed": {
                 "category": c["category"],
-                "text": c["text"] + " Independent objects of the same kind are also used in turn or nested (twin objects fed alternately, clones kept alive, a nested library call made from inside a reader or formatter seam at a scripted call), each judged against its own model; a small share of the runs are scale runs (more than 256 / 4096 / 65536 items, more than 64 KiB / 1 MiB of data, some on a thread of their own) and history runs (a neighbour's failed call, a sink or reader that fails part-way, files and directories that change under a held handle). In every run the allocator seam meters the bytes each library call allocates against the bytes it was given (deterministic work budget, violation work-budget-exceeded), next to the panic monitor, the seam-call budgets and the wall-clock hang watchdog.",
+                "text": c["text"] + " Independent objects of the same kind are also used in turn or nested (twin objects fed alternately, clones kept alive, a nested library call made from inside a reader or formatter seam at a scripted call), each judged against its own model; a small share of the runs are scale runs (more than 256 / 4096 / 65536 items, more than 64 KiB / 1 MiB of data, some on a thread of their own) and history runs (a neighbour's failed call, a sink or reader that fails part-way, files and directories that change under a held handle); in one run in eight (C06 C07 C09 C12 C17 C20) a second caller thread exists and a mask in the scenario decides which of the two threads makes each library call, strictly alternating, so objects are created on one thread and used on the other. In every run the allocator seam meters the bytes each library call allocates against the bytes it was given (deterministic work budget, violation work-budget-exceeded), next to the panic monitor, the seam-call budgets and the wall-clock hang watchdog.",
                 "design_ref": c["design_ref"],
             },
             "level_note": c["note"],
